@@ -107,7 +107,7 @@ TCall ==
                 cntOK == ev.cnt = Cnt(m.s) /\ ("xcnt" \in DOMAIN ev => ev.xcnt = XCnt(m.s))
             IN IF retOK /\ cntOK
                THEN ex' = m.s /\ UNCHANGED <<lost, viol>>
-               ELSE /\ viol' = Note([l |-> l, prop |-> "C12,C13",
+               ELSE /\ viol' = Note([l |-> l, prop |-> "C12,C13,C01",
                                      what |-> "call " \o ev.op.op \o ": return value or counters differ from the exporter state machine",
                                      ret |-> ev.ret, want_nonzero |-> m.nz, cnt |-> ev.cnt, want_cnt |-> Cnt(m.s),
                                      exc |-> IF "exc" \in DOMAIN ev THEN ev.exc ELSE ""])
